@@ -45,7 +45,9 @@ def analyse(repo: Repo, rep: Report, fname: str, store_cats: frozenset, qr_table
     fn = repo.func("service_class", f"QueryRetrieveServiceClass.{fname}")
     fq = f"service_class.QueryRetrieveServiceClass.{fname}"
     rep.saw("functions", fq)
-    cfg = CFG(fn, body=body_nodoc(fn), may_raise=lambda n: False)
+    # exceptions that are caught inside the function are real alternative paths (a C-STORE
+    # sub-operation that raises skips the rest of its try body)
+    cfg = CFG(fn, body=body_nodoc(fn), local_exc_only=True)
     loops = [n for n in cfg.nodes if n.kind == "iter" and "_wrap_handler" in norm(n.ast.iter)]
     rep.need(len(loops) == 1, f"{fq}: result loop over _wrap_handler not found")
     loop = loops[0]
